@@ -15,13 +15,15 @@ Judge(e) ==
   CASE e.ev = "construct" -> <<>>                       \* coverage only (DESIGN section 4)
     [] e.ev = "compute" ->
          LET want == BytesToHex(Tag(Cfg(e), HexToBytes(e.key), HexToBytes(e.msg)))
-         IN  IF e.err # FALSE THEN <<"ComputeMAC failed or panicked on a valid key", want>>
+         IN  IF e.panic THEN <<"ComputeMAC panicked", want>>
+             ELSE IF e.err THEN <<"ComputeMAC failed on a valid key", want>>
              ELSE IF e.out # want THEN <<"tag differs from prefix || Trunc(F(key, msg))", want>>
              ELSE IF e.out2 # e.out THEN <<"ComputeMAC not deterministic", want>>
              ELSE <<>>
     [] e.ev = "verify" ->
          LET want == Verify(Cfg(e), HexToBytes(e.key), HexToBytes(e.tag), HexToBytes(e.msg))
-         IN  IF e.ok = want THEN <<>>
+         IN  IF "panic" \in DOMAIN e /\ e.panic THEN <<"VerifyMAC panicked", ToString(want)>>
+             ELSE IF e.ok = want THEN <<>>
              ELSE <<"VerifyMAC verdict differs from (tag = ComputeMAC(msg))", ToString(want)>>
     [] OTHER -> <<"unknown event", e.ev>>
 
